@@ -642,9 +642,13 @@ def probe_combos(rt):
     for op in (['beats', 'tempo', 'tempo', 'reads'] if rt else ['beats', 'etempo', 'tempo', 'reads']):
         for i in range(2):
             combos.append((op, ['T', i], ['T', i]))
-    for target in kinds:                                  # reset / stop / pause+resume by another routine while a wake-up is pending
-        for parent in ([target] if rt else kinds):        # RT: controller on the victim's own clock thread (one deterministic order)
-            combos.append(('state_op', parent, target))
+    # reset / stop / pause+resume and the documented NO-OPS (play / resume on a playing routine, anything on a stopped one, pause on a
+    # paused one) by another routine while a wake-up is pending: every operation kind on every victim clock in every run
+    sops = ['noop_play', 'reset', 'stop_then_noops', 'pause_noops_resume'] + ([] if rt else ['stop', 'pause_resume', 'noop_play'])
+    for ti, target in enumerate(kinds):
+        for si, sop in enumerate(sops):
+            parent = target if rt else kinds[(ti + si) % len(kinds)]   # RT: controller on the victim's own clock thread (one order)
+            combos.append(('state_op:' + sop, parent, target))
     for parent in kinds:                                  # play with a Quant (default, int, tuple, Quant; negative phases) onto a TempoClock
         for target in (['T', 0], ['T', 1]):
             combos.append(('playq', parent, target))
@@ -673,11 +677,16 @@ def gen_probe(rng, k, rt=False):
           # RT: only move the beats forward (a task moved to the past runs at once; moved to the future it would wait)
           str(Fraction(rng.randint(512, 1024), 8) if rt else Fraction(rng.randint(0, 64), 8)),
           'after': q()}
-    if op == 'state_op':
-        pr['sop'] = rng.choice(['reset', 'reset', 'stop', 'pause_resume'])
+    if op.startswith('state_op:'):
+        pr['sop'] = op.split(':')[1]
+        pr['op'] = op = 'state_op'
         pr['n'] = rng.randint(3, 5)
         pr['after'] = str(scale)                                               # the victim's delta (beats of ITS clock)
-        pr['adv'] = str(Fraction(rng.choice([3, 5, 7, 9, 11, 19]), 16) * scale)  # never on one of the victim's instants
+        # the operation falls strictly BETWEEN two wake-ups of the victim, while it still has yields to go
+        tt_ = Fraction(1) if target in ('S', 'A') else Fraction(pr['tempos'][target[1]])
+        tp_ = Fraction(1) if parent in ('S', 'A') else Fraction(pr['tempos'][parent[1]])
+        m0 = rng.randint(0, pr['n'] - 2)
+        pr['adv'] = str((Fraction(m0) + Fraction(rng.choice([1, 3, 5]), 8)) * scale / tt_ * tp_)
         pr['adv2'] = str(Fraction(rng.choice([1, 3, 5]), 32) * scale)
         pr['rquant'] = '0' if rt else rng.choice([None, '0'])
     if op == 'playq':
@@ -686,7 +695,9 @@ def gen_probe(rng, k, rt=False):
         pr['quant'] = rng.choice([None, ['int', str(qn)], ['tuple', str(qn), str(ph)], ['Quant', str(qn), str(ph)],
                                   ['Quant', str(qn), str(-abs(ph))], ['tuple', '0', str(abs(ph))]])
         pr['how'] = rng.choice(['routine.play', 'clock.play'])
-        pr['bpb'] = rng.choice([None, None, '3', '5'])
+        pr['bpb'] = rng.choice(['3', '5']) if parent == target else None    # parent on the target clock: the bar line is moved first
+        if parent == target and not rt:
+            pr['quant'] = rng.choice([['int', str(qn)], ['Quant', str(qn), str(ph)], ['tuple', str(qn), str(-abs(ph))]])
         if rt:
             pr['quant'] = rng.choice([['int', '0'], ['tuple', '0', '0'], pr['quant'] if pr['quant'] and Fraction(pr['quant'][1]) == 0 else ['int', '0']])
     if op == 'other_resched':                              # the re-scheduling must come while the victim is still pending
@@ -772,11 +783,14 @@ def probe_expected(pr, o):
             m += 1                                       # resumptions 0 .. m-1 happened before the operation
         exp = [(T + j * step, b0 + j * d) for j in range(min(m, n + 1))]
         sop = pr['sop']
-        if m <= n:
+        if sop == 'noop_play':
+            # play() / resume() on a routine that is already playing are documented no-ops: the whole timeline is untouched
+            exp = [(T + j * step, b0 + j * d) for j in range(n + 1)]
+        elif m <= n:
             if sop == 'reset':                           # restarts from its first line at the pending wake-up, on ITS clock
                 D = T + m * step
                 exp += [(D + i * step, b0 + (m + i) * d) for i in range(n + 1)]
-            elif sop == 'pause_resume':
+            elif sop in ('pause_resume', 'pause_noops_resume'):
                 T3 = T2 + dur(pr['parent'], F(pr['adv2']))
                 bb = s2b(tg, T3)
                 if tg in ('S', 'A') or pr.get('rquant') is not None:
